@@ -256,6 +256,16 @@ class ASTTypeBuilder:
         )
 
     def _build_enum_type(self, type_def: _ast.EnumTypeDefinition) -> EnumType:
+        value_names = set()
+        for value in type_def.values:
+            if value.name.value in value_names:
+                raise SDLError(
+                    'Duplicate enum value "%s" on EnumType "%s"'
+                    % (value.name.value, type_def.name.value),
+                    [value],
+                )
+            value_names.add(value.name.value)
+
         return EnumType(
             name=type_def.name.value,
             description=_desc(type_def),
